@@ -24,16 +24,18 @@ type interruption struct {
 	At         float64 // fraction of the hook hits of an uninterrupted run
 	FlushEvery int
 	ExitFlush  bool
+	ChunkDelta int // this run uses chunk size base+delta (the sender's chunk size may change between runs)
 }
 
 type crashCase struct {
 	X     xcase
-	Chain []interruption
-	Delay int
+	Chain      []interruption
+	Delay      int
+	FinalDelta int
 }
 
 func (c crashCase) String() string {
-	return fmt.Sprintf("chain=%+v hashdelay=%d case: %s", c.Chain, c.Delay, c.X)
+	return fmt.Sprintf("chain=%+v final-chunk-delta=%d hashdelay=%d case: %s", c.Chain, c.FinalDelta, c.Delay, c.X)
 }
 
 func fileKeyOf(it manifest.FileItem) uint64 {
@@ -106,13 +108,15 @@ func c05Inspect(e *crashEnv, oc childOutcome, loadableBefore map[string]bool) (s
 			continue // metadata of a file that is not part of this manifest: ignored by the tool (identity check)
 		}
 		it := d.Item
-		if d.SC.FileSize != it.Size || int(d.SC.ChunkSize) != e.p.x.Chunk {
+		if d.SC.FileSize != it.Size || d.SC.ChunkSize == 0 {
 			continue // would be discarded by the identity check
 		}
 		src := e.p.sourceBytes(*it)
 		fp := filepath.Join(e.baseDir(), filepath.FromSlash(it.RelPath))
 		got, _ := os.ReadFile(fp)
-		c := e.p.x.Chunk
+		// the metadata is read under its own geometry: whatever chunk size it states is the
+		// one a later run with that chunk size would trust it under
+		c := int(d.SC.ChunkSize)
 		for i := 0; i < int(d.SC.TotalChunks); i++ {
 			if !d.SC.IsComplete(uint32(i)) {
 				continue
@@ -151,10 +155,13 @@ func c05Inspect(e *crashEnv, oc childOutcome, loadableBefore map[string]bool) (s
 	return "", "", setBits, unflushed
 }
 
-func loadableSet(e *crashEnv) map[string]bool {
+// loadableSet lists the metadata files that are valid for a run with the given chunk size
+// (same identity: the tool keeps and updates those; metadata of another geometry is
+// deliberately discarded and recreated, which is not an "update").
+func loadableSet(e *crashEnv, runChunk int) map[string]bool {
 	m := map[string]bool{}
 	for _, d := range scanSidecars(e.out, e.p.m) {
-		if d.Loadable {
+		if d.Loadable && d.Item != nil && d.SC.FileSize == d.Item.Size && int(d.SC.ChunkSize) == runChunk {
 			m[d.Path] = true
 		}
 	}
@@ -164,7 +171,7 @@ func loadableSet(e *crashEnv) map[string]bool {
 // c04CheckAdvertised: every chunk marked in loadable, identity-matching metadata on disk before a run
 // must be advertised as present in that run's first FileResumeInfo, and must not be sent again if it
 // lies below the highest marked chunk.
-func c04CheckAdvertised(e *crashEnv, before []diskSidecar, res *childResult, tail int) (string, string) {
+func c04CheckAdvertised(e *crashEnv, before []diskSidecar, res *childResult, tail int, runChunk int) (string, string) {
 	infos := map[uint64]childInfo{}
 	for _, in := range res.Infos {
 		infos[in.Key] = in
@@ -177,7 +184,7 @@ func c04CheckAdvertised(e *crashEnv, before []diskSidecar, res *childResult, tai
 		sent[f.Key][f.Index] = true
 	}
 	for _, d := range before {
-		if !d.Loadable || d.Item == nil || d.SC.FileSize != d.Item.Size || int(d.SC.ChunkSize) != e.p.x.Chunk {
+		if !d.Loadable || d.Item == nil || d.SC.FileSize != d.Item.Size || int(d.SC.ChunkSize) != runChunk {
 			continue
 		}
 		if d.Item.Size == 0 {
@@ -249,15 +256,18 @@ func runHistory(cc crashCase, which string) (sig, detail string, st historyStats
 		if sp.KillAt > K {
 			sp.KillAt = K
 		}
+		if sp.Chunk+in.ChunkDelta >= 1 {
+			sp.Chunk += in.ChunkDelta
+		}
 		before := scanSidecars(e.out, e.p.m)
-		loadable := loadableSet(e)
+		loadable := loadableSet(e, sp.Chunk)
 		oc, rerr := e.run(sp)
 		if rerr != nil {
 			return "", "", st, rerr
 		}
 		desc := fmt.Sprintf("run %d of the chain (%s at hook hit %d of %d, flush every %d marks)", i+1, in.Kind, sp.KillAt, K, in.FlushEvery)
 		if oc.Result != nil && which == "C04" {
-			if s, d := c04CheckAdvertised(e, before, oc.Result, 0); s != "" {
+			if s, d := c04CheckAdvertised(e, before, oc.Result, 0, sp.Chunk); s != "" {
 				return s, desc + ": " + d, st, nil
 			}
 		}
@@ -301,6 +311,9 @@ func runHistory(cc crashCase, which string) (sig, detail string, st historyStats
 	fin := e.spec
 	fin.Kind = "none"
 	fin.HashDelay = cc.Delay
+	if fin.Chunk+cc.FinalDelta >= 1 {
+		fin.Chunk += cc.FinalDelta
+	}
 	oc, rerr := e.run(fin)
 	if rerr != nil {
 		return "", "", st, rerr
@@ -309,7 +322,7 @@ func runHistory(cc crashCase, which string) (sig, detail string, st historyStats
 	if r == nil {
 		return "", "", st, fmt.Errorf("final run produced no result: %s", oc.Output)
 	}
-	if s, d := c04CheckAdvertised(e, before, r, 0); s != "" {
+	if s, d := c04CheckAdvertised(e, before, r, 0, fin.Chunk); s != "" {
 		return s, "final resumed run: " + d, st, nil
 	}
 	if r.Hung {
@@ -345,8 +358,11 @@ func genCrashCase(t *rapid.T) crashCase {
 			At:         frac(t, fmt.Sprintf("iat%d", i)),
 			FlushEvery: rapid.SampledFrom([]int{0, 1, 1, 2, 3}).Draw(t, fmt.Sprintf("iflush%d", i)),
 			ExitFlush:  rapid.Bool().Draw(t, fmt.Sprintf("iexitflush%d", i)),
+			ChunkDelta: rapid.SampledFrom([]int{0, 0, 0, 0, 1, -1, 2, 5, -3}).Draw(t, fmt.Sprintf("ichunk%d", i)),
 		})
 	}
+	cc.Chain[0].ChunkDelta = 0
+	cc.FinalDelta = rapid.SampledFrom([]int{0, 0, 0, 1, -1, 3}).Draw(t, "final_chunk")
 	return cc
 }
 
